@@ -249,13 +249,16 @@ def w_program(ctx, rng, i):
         if len(rm):
             for j in rng.integers(-len(rm), len(rm), min(3, len(rm))):
                 maxdepth_read = max(maxdepth_read, read(ctx, r, rm, int(j), how=["int", "np"][rng.integers(0, 2)]))
-        try:
-            n0 = len(LOG)
-            r[len(rm)]
-            ctx.fail("index_past_end_accepted", cls="LazyList")
-        except IndexError:
-            if len(LOG) != n0:
-                ctx.fail("index_past_end_evaluated_something", cls="LazyList")
+        for bad in (len(rm), -len(rm) - 1, -2 * len(rm) - int(rng.integers(0, 2)), len(rm) + 3):
+            if -len(rm) <= bad < len(rm):
+                continue
+            try:
+                n0 = len(LOG)
+                r[bad] if rng.random() < 0.5 else r[np.int64(bad)]
+                ctx.fail("index_past_end_accepted", cls="LazyList", mech="before_the_start" if bad < 0 else "past_the_end")
+            except IndexError:
+                if len(LOG) != n0:
+                    ctx.fail("index_past_end_evaluated_something", cls="LazyList")
     # quiescent point: full evaluation of every list in the pool, by iteration, against the model
     for (p, pm, pid) in pool:
         n0 = len(LOG)
@@ -299,6 +302,8 @@ class _FakeStream(object):
 class FakePopen(object):
     """Stand-in for ffprobe / ffmpeg: a synthetic video whose frame k is filled with the byte values (k, k+1, k+2)."""
     N, W, H, FPS = 40, 4, 3, 25
+    FPS_FRACTION = (25, 1)       # avg_frame_rate as ffprobe prints it
+    DURATION_FACTOR = 1.0        # container duration / (n_frames / fps): real files are rarely exactly consistent
     spawned = 0
 
     def __init__(self, command, **kw):
@@ -306,12 +311,14 @@ class FakePopen(object):
         self.stderr = self.stdin = None
         cmd = [str(c) for c in command]
         if any("ffprobe" in c for c in cmd[:1]):
-            txt = "width=%d\nheight=%d\navg_frame_rate=%d/1\nduration=%f\nnb_read_frames=%d\n" % (self.W, self.H, self.FPS, self.N / float(self.FPS), self.N)
+            fps = self.FPS_FRACTION[0] / float(self.FPS_FRACTION[1])
+            txt = "width=%d\nheight=%d\navg_frame_rate=%d/%d\nduration=%f\nnb_read_frames=%d\n" % (
+                self.W, self.H, self.FPS_FRACTION[0], self.FPS_FRACTION[1], self.N / fps * self.DURATION_FACTOR, self.N)
             self.stdout = _FakeStream(txt.encode())
             return
         start = 0
         if "-ss" in cmd:
-            start = int(round(float(cmd[cmd.index("-ss") + 1]) * self.FPS))
+            start = int(round(float(cmd[cmd.index("-ss") + 1]) * self.FPS_FRACTION[0] / float(self.FPS_FRACTION[1])))
         data = b"".join(bytes([(k + c) % 256 for _ in range(self.W * self.H) for c in range(3)]) for k in range(start, self.N))
         self.stdout = _FakeStream(data)
 
@@ -335,6 +342,8 @@ def w_video(ctx, rng, i):
     V = taps.mod("menpo.io.input.video")
     real = V.sp.Popen
     V.sp.Popen = FakePopen
+    FakePopen.FPS_FRACTION = [(25, 1), (30000, 1001), (5, 1), (24000, 1001)][rng.integers(0, 4)]
+    FakePopen.DURATION_FACTOR = [1.0, 1.0 + 1.7 / FakePopen.N, 0.96, 1.08][rng.integers(0, 4)]
     try:
         ll = V.ffmpeg_importer("synthetic.mp4", normalize=False)
         model = list(range(FakePopen.N))
@@ -386,7 +395,7 @@ def w_video(ctx, rng, i):
             ctx.fail("iteration_differs_from_list_model", cls="LazyList", mech="video_reader", got=vals[:10], expected=model[:10])
     finally:
         V.sp.Popen = real
-    ctx.count_case(("video", tuple(ops)), nontrivial=len(ops) >= 1, sample={"video_ops": ops} if i < 2 else None)
+    ctx.count_case(("video", tuple(ops), FakePopen.FPS_FRACTION, FakePopen.DURATION_FACTOR), nontrivial=len(ops) >= 1, sample={"video_ops": ops} if i < 2 else None)
 
 
 WORKLOADS = [Workload("program", w_program, quick=60000, thorough=2000000), Workload("video", w_video, quick=1500, thorough=60000)]
